@@ -208,7 +208,7 @@ PROPS = {
               "reproduce 3 of 3); non-trivial = the window filled up at least once and capacity was later freed; distinct by hash of the script"),
         assumptions=["real clock; leases are 10 minutes so nothing is redelivered on its own within a script", "a lease lapse without ack/nack is not treated as a capacity-freeing event (the statement lists ack, nack and external ack)",
                      "the stream's own goroutine interleavings are sampled by running in real time, not enumerated"],
-        quick=dict(checks=120, timeout=900),
+        quick=dict(checks=120, timeout=900, shrinktime="10s"),
         thorough=dict(checks=500, shards=8, timeout=3000),
     ),
     "C19": dict(
